@@ -12,10 +12,7 @@ open Hls
 
 /-! ## the RFC minimum of written lines -/
 
-def versionsWritten (k : DecryptionKey) : Bool :=
-  match k.versions with
-  | some v => !v.isDefault
-  | none => false
+def versionsWritten (k : DecryptionKey) : Bool := k.versions.isSome
 
 def ivWritten (k : DecryptionKey) : Bool :=
   match k.iv with
@@ -407,11 +404,6 @@ theorem media_version_sound (p : MediaPlaylist) (ls : List Line) (h : p.writeLin
 
 /-! ## not inflated -/
 
-/-- recorded finding K4 excluded: no key carries a *default* version list (which counts for
-version 5 but is not written) -/
-def NoDefaultVersions (p : MediaPlaylist) : Prop :=
-  ∀ s ∈ p.segments, ∀ k, some k ∈ s.keys → ∀ v, k.versions = some v → v.isDefault = false
-
 /-- the two documented conservative cases: any EXT-X-MAP gives 6; a derived IV gives 2 -/
 def slack (p : MediaPlaylist) : Nat :=
   max (if p.segments.any (·.map.isSome) then 6 else 1)
@@ -421,7 +413,7 @@ def slack (p : MediaPlaylist) : Nat :=
               | _ => false)
           | none => false) then 2 else 1)
 
-theorem key_rv_le (k : DecryptionKey) (hv : ∀ v, k.versions = some v → v.isDefault = false) :
+theorem key_rv_le (k : DecryptionKey) :
     k.requiredVersion ≤ max (keyLineMin (stripIv k)) (match k.iv with
       | .number _ => 2
       | _ => 1) := by
@@ -429,10 +421,12 @@ theorem key_rv_le (k : DecryptionKey) (hv : ∀ v, k.versions = some v → v.isD
   cases f <;> cases v <;> cases iv <;>
     simp_all [keyLineMin, stripIv, DecryptionKey.requiredVersion, versionsWritten, ivWritten, InitializationVector.isSome]
 
-/-- **(3) not inflated.** Outside the two documented conservative cases (and the recorded finding
-K4), the emitted version equals the RFC minimum of the written lines. -/
-theorem media_version_not_inflated_partial (p : MediaPlaylist) (ls : List Line) (h : p.writeLines = .ok ls)
-    (hk4 : NoDefaultVersions p) : p.requiredVersion ≤ max (rfcMin ls) (slack p) := by
+/-- **(3) not inflated.** Outside the two documented conservative cases the emitted version
+equals the RFC minimum of the written lines (full statement since the `fix:` that writes
+KEYFORMATVERSIONS whenever it is set; before it a default version list counted for version 5
+without being written: former finding K4). -/
+theorem media_version_not_inflated (p : MediaPlaylist) (ls : List Line) (h : p.writeLines = .ok ls) :
+    p.requiredVersion ≤ max (rfcMin ls) (slack p) := by
   obtain ⟨_, b, c⟩ := writeLines_mem p ls h
   have hmin : ∀ l ∈ ls, lineMin l ≤ rfcMin ls := by
     intro l hl
@@ -466,7 +460,7 @@ theorem media_version_not_inflated_partial (p : MediaPlaylist) (ls : List Line) 
       cases k with
       | none => exact hone
       | some d =>
-        have h1 := key_rv_le d (hk4 s hs d hk)
+        have h1 := key_rv_le d
         have h2 := hmin _ (c1 d hk)
         simp only [lineMin] at h2
         simp only [ExtXKey.requiredVersion]
@@ -514,13 +508,6 @@ theorem media_version_not_inflated_partial (p : MediaPlaylist) (ls : List Line) 
       have := hmin _ this
       simp only [lineMin, ExtInf.requiredVersion] at this ⊢
       omega
-
-/-- the inflation that K4 causes (counterexample to the full statement) -/
-theorem k4_counterexample :
-    ∃ p : MediaPlaylist, ∃ ls, p.writeLines = .ok ls ∧ max (rfcMin ls) (slack p) < p.requiredVersion := by
-  refine ⟨⟨10000000000, 0, 0, none, false, false, none, false,
-    [⟨0, false, [some ⟨.aes128, ['k'], .aes128 1, none, some ⟨[1]⟩⟩], none, none, none, false, none, ⟨1000000000, none⟩, ['u']⟩], 0, []⟩,
-    _, rfl, by decide⟩
 
 /-! ## master playlists -/
 
